@@ -278,7 +278,8 @@ def run(ctx):
     # ... and the lane counters of both elements step only on their own handshake (wide->narrow: W of the down-converter, R of the
     # up-converter -- a slave that holds WREADY high before the data arrives must not advance the sub-beat position)
     from ..rules_stream import s3_counter
-    from .c03 import HIN, HOUT
+    from .c03 import HIN, HOUT, packer_loads
+    packer_loads(ctx, "U6", "_UpConverter")
     for cls_, cnt_, hs_ in (("_UpConverter", "demux", HIN), ("_DownConverter", "mux", HOUT)):
         s3_counter(ctx, "U6", fx_of(ctx, "litex/soc/interconnect/stream.py", cls_), cls_, cnt_, hs_)
 
